@@ -14,6 +14,9 @@ ecs_world! {
     ecs_archetype!(ArchA, CompA);
 }
 
+/// creation ordinals whose handles are looked at again at the end (slot indices across every byte of the 24-bit field)
+const SAMPLES: [usize; 12] = [0, 1, 255, 256, 65_535, 65_536, 1_000_000, 8_388_607, 8_388_608, 16_777_213, 16_777_214, 16_777_215];
+
 fn main() {
     std::panic::set_hook(Box::new(|_| {}));
     let limit: usize = std::env::args().nth(1).map(|s| s.parse().unwrap()).unwrap_or(usize::MAX);
@@ -22,6 +25,7 @@ fn main() {
     let mut world = if start == 0 { EcsWorld::default() } else { EcsWorld::with_capacity(EcsWorldCapacity { arch_a: start }) };
     println!("start {} {}", start, world.archetype::<ArchA>().capacity());
     let mut first = None;
+    let mut samples: Vec<(usize, Entity<ArchA>)> = Vec::new();
     let mut n: usize = 0;
     loop {
         if n >= limit {
@@ -47,6 +51,9 @@ fn main() {
                 if first.is_none() {
                     first = Some(e);
                 }
+                if SAMPLES.contains(&n) {
+                    samples.push((n, e));
+                }
                 let cap2 = world.archetype::<ArchA>().capacity();
                 if cap2 != cap {
                     println!("grow {} {} {}", len, cap, cap2);
@@ -58,6 +65,21 @@ fn main() {
                 break;
             }
         }
+    }
+    // handles with large slot indices: still their own entity, through every key kind and the raw round trip
+    for (i, e) in samples.iter() {
+        let want = (*i & 0xff) as u8;
+        let any = e.into_any();
+        let v1 = ecs_find!(world, *e, |c: &CompA| c.0);
+        let v2 = ecs_find!(world, any, |c: &CompA| c.0);
+        let raw = any.raw();
+        let back = EntityAny::from_raw(raw);
+        let rt = matches!(back, Ok(b) if b == any);
+        let d = world.to_direct(*e);
+        let v3 = d.and_then(|d| ecs_find!(world, d, |c: &CompA| c.0));
+        let typed_back = Entity::<ArchA>::try_from(any).map(|t| t == *e).unwrap_or(false);
+        println!("sample {} {} {} {} {} {} {}", i, (v1 == Some(want)) as u8, (v2 == Some(want)) as u8, rt as u8, (v3 == Some(want)) as u8,
+                 typed_back as u8, world.archetype::<ArchA>().contains(*e) as u8);
     }
     // nothing corrupted: the world keeps working, the freed position is reusable
     let (len, cap) = (world.archetype::<ArchA>().len(), world.archetype::<ArchA>().capacity());
